@@ -21,16 +21,26 @@ list of holds [k, d]: the k-th reply of the session (k = "fault": the reply to t
 back by the server and delivered after d later replies have gone out - or, like any reply a real server owes, when the
 server has nothing else to do (no request arrives for REORDER_GRACE_S).  Only the ORDER of complete reply packets
 changes; every reply is delivered (see ReorderChan).
+Announced size (round 4): every transfer is told a size in advance - putfo's file_size argument ("hint"), the
+length put() finds when it stats the local file, the length the server's STAT reports to get() / getfo() - and that
+size need not be the length of the source: "hint" = any file_size (0, 1, a byte / a chunk short or over, a fraction,
+chunk boundaries, far too large); "src0" = the length the source has when it is stat'ed: a served file has its real
+content from the transfer's OPEN on (change_at -1: STAT lagging behind or ahead of a file that then keeps still), or is
+appended to when its change_at-th READ is served; a local file is appended to in put()'s change_at-th progress callback.
+Files only shrink before their first read (the bytes a read of a shrinking file returns are not defined).
 
 Oracle (the statement, nothing more):
   * the call returns  =>  destination bytes == source bytes; put/putfo with confirm return
     attributes whose st_size is the source length; getfo returns the source length;
+    "the source bytes" of a source that was appended to WHILE it was copied are its content before or after the append
+    (either is exact); of one that changed before its first read was served, its content since then;
   * otherwise it raised (any exception type) - accepted;
   * pwrite: if the server rejected a write, some call up to and including close() raised;
   * a call that neither returns nor raises is reported as "blocks": proven deadlock (both ends
     parked in recv on a drained link) or 30 s without any traffic on the link, three times in a
     row (the channel is closed to release it);
-  * sanity against vacuity: without a fault that was actually hit, the transfer must succeed.
+  * sanity against vacuity: without a fault that was actually hit, the transfer must succeed (a transfer whose
+    source changed under it may raise: counted, never seen on the unchanged tree).
 SFTP_EOF is not used as a read fault: an EOF status is the protocol's way of saying
 "the file ends here", so a shorter result is then the honest answer (recorded assumption).
 """
@@ -54,12 +64,17 @@ RULE = (
     "stat of the transfer's remote file, open+close of another file), pwrite: such requests, set_pipelined switches and the file object's own "
     "non-write operations (stat, seek to the end, size idiom, seek cur/set, tell, flush, chmod, utime, truncate at the position) between the write()s, "
     "reply order = in request order | generated holds (k-th reply, or the reply to the faulted request, delivered after d later replies / when the server is idle), "
+    "announced size = the source's length | another one (putfo file_size argument 0 / 1 / a byte or a chunk off / a fraction / chunk boundaries / up to 3 chunks "
+    "past the end / 2**31 .. 2**63-1; get, getfo: the served file has that length when STAT is answered and its real content from the OPEN on, or is appended "
+    "to when its k-th READ is served; put: the local file is appended to in the k-th progress callback), "
     "prefetch, max_concurrent_prefetch_requests, short local source reads, fault plan = "
     "k-th WRITE/READ request (or every request) answered with SFTP error code 1..8 (reads: 2..8) or a short read); "
     "hypothesis-sampled, plus an enumeration of every single failing chunk position x every code for files of 1..N "
     "chunks (N=3 quick, 8 thorough, sharded over the workers), each position also with the faulted reply overtaken by 1..N later replies and "
-    "with one file operation after each write(). non-trivial = the fault plan was actually hit "
-    "(server log shows the faulted request) ; distinct = SHA-1 of the case"
+    "with one file operation after each write(); and fault-free transfers of 1..M chunk files (M=2 quick, 5 thorough) under every announced size in "
+    "{0, 1, half, length-1, length+1, every chunk boundary up to 2 chunks past the end} as putfo argument, as lagging STAT for get / getfo with and without "
+    "prefetch, and as the length of a local / served file that is appended to during put / getfo. non-trivial = the fault plan was actually hit "
+    "(server log shows the faulted request) or the announced size really differed from the source's length; distinct = SHA-1 of the case"
 )
 
 CHUNK = 32768
@@ -85,6 +100,14 @@ def _content(seed, size):
     return hashlib.shake_256(b"c29:%d" % seed).digest(size)
 
 
+def _state0(src, seed, src0):
+    """Content of a source while it has its ANNOUNCED length src0: a prefix of the real content, or the real content
+    followed by bytes that are gone again before the first read."""
+    if src0 <= len(src):
+        return src[:src0]
+    return src + hashlib.shake_256(b"c29-gone:%d" % seed).digest(src0 - len(src))
+
+
 class Plan:
     """fault = None | [dir, k, kind, arg]; dir "w"/"r"; kind "error"/"short"."""
 
@@ -92,6 +115,22 @@ class Plan:
         self.fault = fault
         self.hits = 0
         self.on_hit = None  # called (in the server thread) when a request is faulted, before its reply is sent
+        # a served source whose length is not the announced one: change(), run once in the server thread, gives the file
+        # its real content - when the transfer OPENs it (change_at == -1) or when its change_at-th READ is about to be served
+        self.change = None
+        self.change_at = None
+        self.change_path = None
+        self.changed = False
+
+    def _change(self):
+        if self.change is not None and not self.changed:
+            self.changed = True
+            self.change()
+
+    def on_call(self, where, op, n, args):
+        if where == "iface" and op == "open" and self.change_at == -1 and args and args[0] == self.change_path:
+            self._change()
+        return None
 
     def _act(self, d, n):
         f = self.fault
@@ -108,6 +147,8 @@ class Plan:
         return self._act("w", n)
 
     def on_read(self, handle, n, offset, length):
+        if self.change_at is not None and self.change_at >= 0 and n >= self.change_at:
+            self._change()
         return self._act("r", n)
 
 
@@ -268,6 +309,22 @@ def _norm(case):
         c["between"] = [str(k) for k in case["between"]]
     if case.get("reorder"):
         c["reorder"] = [[k if k == "fault" else int(k), max(1, int(d))] for k, d in case["reorder"]]
+    # announced size != real length (round 4): putfo's file_size argument; the length put() / get() / getfo() find when
+    # they stat the source, which has its real length only later (see execute)
+    if c["op"] == "putfo" and case.get("hint") is not None:
+        c["hint"] = max(0, int(case["hint"]))
+    if c["op"] in ("put", "get", "getfo") and case.get("src0") is not None:
+        src0 = max(0, int(case["src0"]))
+        at = int(case.get("change_at", -1 if c["op"] != "put" else 0))
+        if c["op"] == "put":
+            src0, at = min(src0, c["size"]), max(0, at)  # local files only grow (appends), in a progress callback
+        elif src0 > c["size"]:
+            at = -1  # a served file gets shorter only before it is opened (reads of a shrinking file have no defined result)
+        # ... at the latest with the last callback invocation / READ request the source would see if it never changed
+        steps = (src0 + CHUNK - 1) // CHUNK
+        at = min(at, max(0, steps - 1) if c["op"] == "put" else steps)
+        if src0 != c["size"]:
+            c["src0"], c["change_at"] = src0, max(-1, at)
     f = case.get("fault")
     if f is not None:
         c["fault"] = [f[0], int(f[1]), f[2], int(f[3])]
@@ -345,14 +402,23 @@ def execute(ctx, case, _attempt=0):
             raise AssertionError(kind)
 
     cbreq = case.get("cbreq") or []
+    # a source whose length is not the one announced to the transfer
+    src0 = case.get("src0")
+    state0 = src if src0 is None else _state0(src, case["seed"], src0)
+    local_change = {"done": False}
 
     def callback(a, b):
         i = len(cb_calls)
         cb_calls.append((a, b))
+        if op == "put" and src0 is not None and i >= case["change_at"] and not local_change["done"]:
+            # the local file is being appended to while it is copied
+            local_change["done"] = True
+            with open(lpath, "ab") as f:
+                f.write(src[src0:])
         if cbreq:
             issue(cbreq[i % len(cbreq)])
 
-    cb = callback if (case["cb"] or cbreq) else None
+    cb = callback if (case["cb"] or cbreq or (op == "put" and src0 is not None)) else None
     between = case.get("between") or []
     env = SftpEnv(root, plan)
     baseline = set(threading.enumerate())
@@ -362,18 +428,30 @@ def execute(ctx, case, _attempt=0):
     client = env.client
 
     if op in ("get", "getfo"):
-        with open(os.path.join(root, "src"), "wb") as f:
-            f.write(src)
+        rsrc = os.path.join(root, "src")
+        with open(rsrc, "wb") as f:
+            f.write(state0)
+        if src0 is not None:
+            # the server's STAT is answered from the announced length; the file has its real content from the OPEN of
+            # the transfer on (change_at -1), or from its change_at-th READ on (a file growing while it is downloaded)
+            def change():
+                if src0 <= len(src):
+                    with open(rsrc, "ab") as f:
+                        f.write(src[src0:])
+                else:
+                    os.truncate(rsrc, len(src))
+
+            plan.change, plan.change_at, plan.change_path = change, case["change_at"], "/src"
     if op == "put":
         with open(lpath, "wb") as f:
-            f.write(src)
+            f.write(state0)
 
     def call():
         if op == "put":
             return client.put(lpath, "/dst", cb, case["confirm"])
         if op == "putfo":
             fl = ShortSource(src, case["srcread"]) if case["srcread"] else io.BytesIO(src)
-            return client.putfo(fl, "/dst", len(src), cb, case["confirm"])
+            return client.putfo(fl, "/dst", case.get("hint", len(src)), cb, case["confirm"])
         if op == "get":
             return client.get("/src", lpath, cb, case["prefetch"], case["maxreq"])
         if op == "getfo":
@@ -455,6 +533,35 @@ def execute(ctx, case, _attempt=0):
     classes.extend("file-op-between-writes:" + k for k in sorted(other["fileops"]))
     if other["fileops"] and hit:
         classes.append("fault-hit-on-a-file-with-other-file-operations")
+    # announced size vs real length
+    changed = plan.changed if op != "put" else local_change["done"]
+    announced = None
+    if op == "putfo" and "hint" in case:
+        announced = case["hint"]
+        rel = "zero" if announced == 0 else ("exact" if announced == len(src) else ("smaller" if announced < len(src) else "larger"))
+        classes.append("announced:putfo-file_size:" + rel)
+    elif src0 is not None:
+        announced = src0
+        rel = "smaller" if src0 < len(src) else "larger"
+        when = "at-open" if case["change_at"] == -1 else "during-the-copy"
+        classes.append("announced:%s:%s-than-real:source-changes-%s%s" % ("local-stat" if op == "put" else "server-stat", rel, when, "" if changed else ":never-reached"))
+    mismatch = announced is not None and announced != len(src) and (src0 is None or changed)
+    if mismatch:
+        classes.append("announced-size-differs-from-source-length:" + op)
+        if 0 < announced < len(src):
+            classes.append("announced-smaller:ends-%s" % ("on-a-chunk-boundary" if announced % CHUNK == 0 else "inside-a-chunk"))
+        if hit:
+            classes.append("fault-hit-in-a-transfer-with-wrong-announced-size")
+    # what "the source bytes" are: a source that kept its content has one answer; one that was appended to while it was
+    # copied has two (before / after); one that changed before its first read was served has its content since then
+    if src0 is None:
+        accepted = [src]
+    elif not changed:
+        accepted = [state0]
+    elif op != "put" and case["change_at"] == -1:
+        accepted = [src]
+    else:
+        accepted = [state0, src]
     order_log = list(getattr(schan, "order_log", [])) if reorder else []
     if reorder:
         # replies the server still owed when the client ended the session (the server thread has been joined)
@@ -473,14 +580,18 @@ def execute(ctx, case, _attempt=0):
             classes.append("reply-order:faulted-reply-overtaken:" + fkind)
     else:
         classes.append("reply-order:request-order")
-    ctx.case(case, hit, classes)
+    ctx.case(case, hit or mismatch, classes)
 
     try:
         if status == "stuck":
             ctx.violation("transfer-blocks", "%s:%s:%s" % (op, fkind, where), case, value)
             return
         if status == "exc":
-            if not hit:
+            if not hit and src0 is not None:
+                # no request was failed, but the source changed under the transfer: an error is one of the two outcomes
+                # the statement allows
+                ctx.count("raised-on-a-source-that-changed:%s:%s" % (op, type(value).__name__))
+            elif not hit:
                 ctx.violation("raised-without-fault", "%s:%s" % (op, type(value).__name__), case, repr(value))
             return
         # the call returned normally: the destination must equal the source
@@ -499,7 +610,7 @@ def execute(ctx, case, _attempt=0):
         else:
             got = out.getvalue()
         rejected_write = hit and case["fault"][0] == "w"
-        if got != src:
+        if got not in accepted:
             detail = "%s returned normally; destination %s != source (%d bytes); fault=%r; server log tail %r" % (
                 op,
                 "missing" if got is None else "%d bytes, first difference at %d" % (len(got), _first_diff(got, src)),
@@ -507,6 +618,11 @@ def execute(ctx, case, _attempt=0):
                 case["fault"],
                 env.server_log[-4:],
             )
+            if announced is not None:
+                detail += "; size announced to the transfer: %d (%s)" % (
+                    announced,
+                    "file_size argument" if src0 is None else "length of the source when it was stat'ed; real length since %s" % ("the OPEN" if case["change_at"] == -1 and op != "put" else "the copy was under way" if changed else "never"),
+                )
             if out_of_order:
                 detail += "; replies delivered out of order (reply index, overtaken by, released by, faulted): %r" % (order_log,)
             if other["fileops"]:
@@ -516,18 +632,22 @@ def execute(ctx, case, _attempt=0):
                     detail += "; %d other requests (%s) were issued on the same client during the transfer" % (other["n"], ", ".join(sorted(other["kinds"])))
                 ctx.violation(SIG_DROPPED[0], _lost_bucket(case, other, out_of_order), case, detail)
             else:
-                ctx.violation("silent-corruption", "%s:%s:prefetch=%s%s" % (op, fkind, case["prefetch"], ":replies-out-of-order" if out_of_order else ""), case, detail)
+                where_ = ""
+                if mismatch and got is not None and len(got) != len(src) and src[: len(got)] == got[: len(src)]:
+                    # a clean prefix of the source (or the source plus bytes that were gone): tell it from other corruption
+                    where_ = ":stops-short-of-the-source-end:announced-%s" % ("smaller" if announced < len(src) else "larger")
+                ctx.violation("silent-corruption", "%s:%s:prefetch=%s%s%s" % (op, fkind, case["prefetch"], ":replies-out-of-order" if out_of_order else "", where_), case, detail)
             return
         if op == "pwrite" and rejected_write:
             # same bytes by luck is impossible here (a rejected write leaves a hole), kept for completeness
             ctx.violation(SIG_DROPPED[0], _lost_bucket(case, other, out_of_order), case, "write rejected but close() returned")
             return
         if op in ("put", "putfo") and case["confirm"]:
-            if getattr(value, "st_size", None) != len(src):
-                ctx.violation("returned-size", "%s:st_size" % op, case, "st_size=%r source=%d" % (getattr(value, "st_size", None), len(src)))
+            if getattr(value, "st_size", None) != len(got):
+                ctx.violation("returned-size", "%s:st_size" % op, case, "st_size=%r source=%d" % (getattr(value, "st_size", None), len(got)))
                 return
-        if op == "getfo" and value != len(src):
-            ctx.violation("returned-size", "getfo", case, "returned %r source=%d" % (value, len(src)))
+        if op == "getfo" and value != len(got):
+            ctx.violation("returned-size", "getfo", case, "returned %r source=%d" % (value, len(got)))
             return
     finally:
         shutil.rmtree(base, ignore_errors=True)
@@ -578,6 +698,19 @@ _cbreq = st.one_of(
 _between = st.lists(st.sampled_from(BETWEEN_KINDS), min_size=1, max_size=4).filter(lambda ks: any(k != "none" for k in ks))
 
 
+def _announced(draw, size):
+    """A size announced to a transfer whose source has `size` bytes: none at all, a byte or a chunk off, a fraction,
+    the previous / next chunk boundaries, anything up to a few chunks beyond the end, or far too large."""
+    return draw(
+        st.one_of(
+            st.sampled_from([0, 1, max(0, size - 1), size + 1, size // 2, size // CHUNK * CHUNK, max(0, size - CHUNK), size + CHUNK, 2 * size + 7]),
+            st.integers(0, size),
+            st.integers(0, size).map(lambda v: v // CHUNK * CHUNK),
+            st.integers(0, size + 3 * CHUNK),
+        )
+    )
+
+
 @st.composite
 def case_st(draw):
     op = draw(st.sampled_from(["put", "putfo", "putfo", "get", "getfo", "getfo", "pwrite"]))
@@ -605,7 +738,17 @@ def case_st(draw):
         case["prefetch"] = draw(st.booleans())
         case["maxreq"] = draw(st.sampled_from([None, None, 1, 2, 3, 64]))
         nreq += 1
-    if draw(st.integers(0, 9)) > 0:
+    # the size announced to the transfer is not the length of the source (about every third put / putfo / get / getfo)
+    wrong_size = op != "pwrite" and draw(st.integers(0, 2)) == 0
+    if wrong_size and op == "putfo":
+        case["hint"] = draw(st.sampled_from([1 << 31, (1 << 32) + 5, (1 << 63) - 1])) if draw(st.integers(0, 7)) == 0 else _announced(draw, size)
+    elif wrong_size and op == "put":
+        case["src0"] = min(size, _announced(draw, size))
+        case["change_at"] = draw(st.sampled_from([0, 0, 1, 2, 5]))
+    elif wrong_size:
+        case["src0"] = _announced(draw, size)
+        case["change_at"] = draw(st.sampled_from([-1, -1, -1, 0, 1, 2, 3]))
+    if draw(st.integers(0, 9)) > (3 if wrong_size else 0):
         k = draw(st.one_of(st.integers(0, max(0, nreq - 1)), st.integers(-1, nreq + 1)))
         if writes:
             case["fault"] = ["w", k, "error", draw(st.sampled_from(WRITE_CODES))]
@@ -643,6 +786,26 @@ def baseline_cases(quick):
         out.append({"op": "pwrite", "size": size, "seed": 2, "bufsize": 0, "chunks": [70000, 1, 32769, 0], "between": FILE_OPS[5:]})
         out.append({"op": "put", "size": size, "seed": 3, "confirm": True, "reorder": [[1, 2], [3, 40]]})
         out.append({"op": "get", "size": size, "seed": 5, "prefetch": True, "reorder": [[2, 1], [3, 2]]})
+    return out
+
+
+def announced_cases(max_chunks):
+    """Fault-free transfers of files of 1..max_chunks chunks whose announced size is not the source's length: none,
+    one byte, every chunk boundary up to two chunks past the end, a byte short / over - as putfo file_size argument,
+    as the length get / getfo (prefetch on and off) find with their STAT before the file is opened, and as the length
+    of a local file / served file that is appended to while put / getfo copy it."""
+    out = []
+    for n in range(1, max_chunks + 1):
+        for size in ((n - 1) * CHUNK + 1, n * CHUNK, n * CHUNK + 12345):
+            wrong = sorted(set([0, 1, size - 1, size + 1, size // 2] + [k * CHUNK for k in range(1, n + 3)]) - {size})
+            for j, a in enumerate(wrong):
+                out.append({"op": "putfo", "size": size, "seed": n, "confirm": bool(j & 1), "cb": bool(j & 2), "hint": a})
+                for prefetch in (True, False):
+                    out.append({"op": "getfo", "size": size, "seed": n, "prefetch": prefetch, "cb": bool(j & 1), "src0": a, "change_at": -1})
+                out.append({"op": "get", "size": size, "seed": n, "prefetch": True, "maxreq": [None, 1, 2][j % 3], "src0": a, "change_at": -1})
+                if a < size:
+                    out.append({"op": "put", "size": size, "seed": n, "confirm": bool(j & 1), "src0": a, "change_at": j % 2})
+                    out.append({"op": "getfo", "size": size, "seed": n, "prefetch": bool(j & 1), "src0": a, "change_at": j % 3})
     return out
 
 
@@ -719,7 +882,7 @@ def run(ctx):
     ctx.assume("SFTP_EOF is not injected as a read fault: an EOF status legitimately ends the file for the client")
     ctx.assume("same-size data corruption and writes acknowledged but not performed are outside the fault model (SFTP writes are all-or-error)")
     max_chunks = 3 if ctx.quick else 8
-    cases = baseline_cases(ctx.quick) + enumerated(max_chunks)
+    cases = baseline_cases(ctx.quick) + announced_cases(2 if ctx.quick else 5) + enumerated(max_chunks)
     mine = [c for i, c in enumerate(cases) if i % ctx.nworkers == ctx.worker]
     done = 0
     for c in mine:
